@@ -57,6 +57,9 @@ def call(E, name, args, kwargs):
     if name in ('pulled', 'maxidx'):
         g = _ghost(args[0])
         return VI(g[name])
+    if name == 'pulled_initial':
+        g = _ghost(args[0])
+        return VI(g['pulled_initial'])
     if name in ('len_called', 'failed_probe', 'len_before_failed_probe'):
         g = _ghost(args[0])
         if name in g and g[name] is None:
